@@ -157,6 +157,10 @@ func genC04(r *PRNG, tier string) *Scenario {
 			openLen = 0
 		}
 	}
+	if r.Chance(1, 4) {
+		// the peer idles before it misbehaves: the 1002 reply is due whenever the violation arrives
+		script = append(script, SItem{Kind: "pause", PauseMs: int64(r.Pick([]int{1100, 2500, 4500}))})
+	}
 	script = append(script, genViolation(r, comp, inMsg, openLen))
 	// valid traffic after the violation: none of it may be processed
 	for i := r.Range(0, 3); i > 0; i-- {
